@@ -147,7 +147,7 @@ CHECK_DEADLOCK FALSE
 		if err := json.Unmarshal([]byte(l), &c); err != nil {
 			vk.Infra("bad CASE: %v", err)
 		}
-		if c.Class != "plugin_canon" || c.Payload == 1 {
+		if (c.Class != "plugin_canon" && c.Class != "plugin_junkfront") || c.Payload == 1 {
 			continue // an empty and a non-empty payload (C09 covers the payload lengths); rejected names must stay in
 		}
 		cases = append(cases, c)
@@ -347,6 +347,50 @@ func cli(run *vk.Run, e *env, names map[string]bool, w *world.World) {
 		run.Distinct(sig)
 	}
 	run.Add("cli_j_cases", len(list))
+	// several identity flags on one command line: each is checked and used for what it says itself, in the order given
+	// (decryption resolves them one after the other; a flag must not be taken for its neighbour)
+	var xbuf bytes.Buffer
+	xid, _ := age.GenerateX25519Identity()
+	if w, err := age.Encrypt(&xbuf, xid.Recipient()); err == nil {
+		w.Write([]byte("hello"))
+		w.Close()
+	}
+	inFile := filepath.Join(e.root, "multi.age")
+	os.WriteFile(inFile, xbuf.Bytes(), 0o600)
+	plainID := filepath.Join(e.root, "plain-id.txt")
+	other, _ := age.GenerateX25519Identity()
+	os.WriteFile(plainID, []byte(other.String()+"\n"), 0o600)
+	env2 := []string{"PATH=" + e.first + ":" + e.second + ":/usr/bin:/bin", "TMPDIR=" + e.tmp}
+	type multi struct {
+		flags    []string
+		badFirst bool   // an invalid value stands in front: nothing may start, the command must fail
+		first    string // otherwise: the valid name whose program must be the first (and, as it fails, the only) one started
+	}
+	for _, m := range []multi{
+		{[]string{"-j", "a\\b", "-j", "foo"}, true, ""},
+		{[]string{"-j", "pwn/foo", "-j", "foo"}, true, ""},
+		{[]string{"-j", "a!b", "-i", plainID, "-j", "foo"}, true, ""},
+		{[]string{"-i", plainID, "-j", "../x", "-j", "foo"}, true, ""},
+		{[]string{"-j", "x.y", "-j", "foo"}, false, "x.y"},
+		{[]string{"-j", "foo", "-j", "x.y"}, false, "foo"},
+		{[]string{"-i", plainID, "-j", "x.y", "-j", "foo"}, false, "x.y"},
+	} {
+		os.WriteFile(e.log, nil, 0o644)
+		args := append(append([]string{"-d"}, m.flags...), "-o", filepath.Join(e.root, "multi.out"), inFile)
+		p := vk.RunProc(20*time.Second, e.cwd, env2, []byte{}, ageBin, args...)
+		run.Eval(1)
+		ran := e.started("add-")
+		sig := "cli-multi:" + strings.Join(m.flags, " ")
+		rp := map[string]interface{}{"check": "C17.cli-multi", "flags": m.flags}
+		if m.badFirst {
+			if len(ran) > 0 || p.Exit == 0 {
+				run.Violation("C17:process-started-for-invalid-name:"+sig, fmt.Sprintf("age -d %s: an identity flag with an invalid plugin name is on the command line; exit %d, started %v", strings.Join(m.flags, " "), p.Exit, ran), rp)
+			}
+		} else if want := filepath.Join(e.first, "age-plugin-"+m.first); len(ran) == 0 || ran[0] != want {
+			run.Violation("C17:wrong-program-started:"+sig, fmt.Sprintf("age -d %s: started %v; the first plugin identity in command-line order is %s", strings.Join(m.flags, " "), ran, want), rp)
+		}
+		run.Distinct(sig)
+	}
 }
 
 // headerMentions: a header that names plugin-like stanza types never starts anything when decrypted with native identities.
